@@ -25,6 +25,8 @@ import AmrK.MenuClass
 import AmrK.MeshEq
 import AmrK.F64Text
 import AmrK.F32Cast
+import AmrK.ChkHeader
+import AmrK.Slicing
 import AmrK.TasteCoords
 import AmrK.CellHRewrite
 import AmrK.HeaderRewrite
@@ -473,6 +475,29 @@ def opFloatTokens (j : Json) : Except String Json := do
       | some false => "not-nearest"
   return Json.mkObj [("status", "ok"), ("verdicts", toJson res)]
 
+/-- mandoline's slicing coordinates -/
+def opSlicing (j : Json) : Except String Json := do
+  let normal : Option Nat := (j.getObjValAs? Nat "normal").toOption
+  let pos : Option Rat ← match j.getObjVal? "pos" with
+    | .ok .null => pure none
+    | .ok p => do pure (some (← ratOfJson p))
+    | .error _ => pure none
+  let lo ← ratList (← j.getObjVal? "lo")
+  let hi ← ratList (← j.getObjVal? "hi")
+  match Slicing.coords normal pos lo hi with
+  | none => return Json.mkObj [("status", "refused")]
+  | some c => return Json.mkObj [("status", "ok"), ("cn", toJson c.cn), ("cx", toJson c.cx), ("cy", toJson c.cy), ("pos", ratJ c.pos)]
+
+/-- the checkpoint Header as chk2plt's reader takes it -/
+def opChkHeader (j : Json) : Except String Json := do
+  let text := unhex (← (← j.getObjVal? "hex").getStr?)
+  match ChkHeader.parse (Py.splitOn 10 text) with
+  | none => return Json.mkObj [("status", "raises")]
+  | some P =>
+    return Json.mkObj [("status", "ok"), ("max_level", toJson P.maxLevel), ("step", toJson P.step), ("time", str P.time),
+      ("geo_lo", toJson (P.geoLo.map str)), ("geo_hi", toJson (P.geoHi.map str)),
+      ("levels", toJson (P.levels.map fun lv => lv.map fun b => [b.1, b.2])), ("grid_sizes", toJson P.gridSizes)]
+
 /-- doubles against the singles they were converted to -/
 def opCast32 (j : Json) : Except String Json := do
   let ps ← (← j.getObjVal? "pairs").getArr?
@@ -764,6 +789,8 @@ partial def loop (h : IO.FS.Stream) (out : IO.FS.Stream) (files : Std.HashMap St
         | "mesh_eq" => opMeshEq j
         | "float_tokens" => opFloatTokens j
         | "cast32" => opCast32 j
+        | "chk_header" => opChkHeader j
+        | "slicing" => opSlicing j
         | "fab_rows" => opFabRows files j
         | "combine_cellh" => opCombineCellH j
         | "rewrite_header" => opRewriteHeader j
